@@ -3,7 +3,7 @@
 import json
 props = [json.loads(l) for l in open('/verif/properties.jsonl')]
 claimed = json.load(open('/verif/tools/manifest_checks.json'))
-hooks = ["0850f20", "7c55845", "233ad38"]
+hooks = ["0850f20", "7c55845", "233ad38", "03f1401"]
 checks = []
 for p in props:
     c = claimed.get(p['id'])
